@@ -336,7 +336,8 @@ func BuildSidecarOutboundVirtualHosts(node *model.Proxy, push *model.PushContext
 		listenerPort = 0
 	}
 
-	includeRequestAttemptCount := util.GetProxyHeaders(node, push, istionetworking.ListenerClassSidecarOutbound).IncludeRequestAttemptCount
+	proxyHeaders := util.GetProxyHeaders(node, push, istionetworking.ListenerClassSidecarOutbound)
+	includeRequestAttemptCount := proxyHeaders.IncludeRequestAttemptCount
 
 	servicesByName := make(map[host.Name]*model.Service)
 	for _, svc := range services {
@@ -383,6 +384,10 @@ func BuildSidecarOutboundVirtualHosts(node *model.Proxy, push *model.PushContext
 			DNSAutoAllocate: bool(node.Metadata.DNSAutoAllocate),
 			AllowAny:        util.IsAllowAnyOutbound(node) || util.IsAllowAnyDynamicDNSOutbound(node),
 			IPMode:          int(node.GetIPMode()),
+
+			IncludeRequestAttemptCount: proxyHeaders.IncludeRequestAttemptCount,
+			XForwardedHost:             proxyHeaders.XForwardedHost,
+
 			ListenerPort:    listenerPort,
 			Services:        services,
 			VirtualServices: virtualServices,
